@@ -27,12 +27,17 @@ KNOWN_MATCHERS = {}
 P = [ord(c) for c in '<pad>']
 B = [ord(c) for c in '<bos>']
 TEMPLATES = {
-    'sym1': ['w1'], 'sym2': ['w2', 'w1'], 'sym3': ['w3', 'w1', 'w4'], 'sym3b': ['w1', 'w2', 'w1'], 'empty': [],
+    'sym1': ['w1'], 'sym2': ['w2', 'w1'], 'sym3': ['w3', 'w1', 'w4'], 'sym3b': ['w1', 'w2', 'w1'], 'sym2b': ['w1', 'w1'], 'empty': [],
     'pad': P, 'pad_pre': ['w1'] + P, 'pad_post': P + ['w2'], 'near_pad': P[:4] + ['w1'], 'near_pad2': ['w1'] + P[1:],
     'bos_mid': ['w3'] + B + ['w1'], 'two': B + P, 'lt': [ord('<'), 'w1', ord('>')],
 }
 E = [ord(c) for c in '<eos>']
+X = [ord(c) for c in '<|x|>']
 QUICK_TEMPLATES = list(TEMPLATES)
+# texts for the special configuration whose tokens contain regex metacharacters
+META_TEMPLATES = {'meta_x': ['w1'] + X + ['w2'], 'meta_dot': [ord('a'), 'w1', ord('b')], 'meta_near': X[:2] + ['w1'] + X[3:],
+                  'meta_bar': [ord('|'), 'w1', ord('x')]}
+TEMPLATES.update(META_TEMPLATES)
 # thorough tier only: four symbolic characters, special spellings with symbolic neighbours on both sides, repeated /
 # interrupted spellings
 TEMPLATES.update({
@@ -43,7 +48,7 @@ TEMPLATES.update({
 
 
 def templates(tier):
-    return QUICK_TEMPLATES if tier == 'quick' else list(TEMPLATES)
+    return QUICK_TEMPLATES if tier == 'quick' else [t for t in TEMPLATES if t not in META_TEMPLATES]
 
 
 def shapes(tier):
@@ -64,6 +69,9 @@ def shapes(tier):
         for g in (False, True):
             out.append({'kind': 'byte', 'template': t, 'special': 'two_prefix', 'g': g, 'groups': 'Bytes', 'pad_to': None})
             out.append({'kind': 'char', 'template': t, 'special': 'two_prefix', 'g': g})
+    for t in list(META_TEMPLATES) + ['lt', 'sym2', 'empty']:
+        out.append({'kind': 'byte', 'template': t, 'special': 'meta', 'g': False, 'groups': 'Bytes', 'pad_to': None})
+        out.append({'kind': 'char', 'template': t, 'special': 'meta', 'g': False})
     out.sort(key=lambda s: -len(TEMPLATES[s['template']]))
     return out
 
